@@ -149,7 +149,7 @@ func genC17Split(r *Rng) *World {
 	w.Pool = genPoolCfg(r)
 	tok := pick(r, usable([]string{`{id}`, `{name}`, `{-ign}`, `{id:\d+}`, `{-n:\d+}`, `{w:word}`, `{id:digit}`}, w.Opts.Interceptors))
 	root := pick(r, []string{"/pages/", "/u/", "/", "/a/b-"})
-	tail := pick(r, []string{"/log/", "/posts", ".html", "/ab"})
+	tail := pick(r, []string{"/log/", "/posts", ".html", "/ab", "/" + strings.Repeat("longtail", pick(r, []int{32, 40, 130}))})
 	sib := tail[:r.Range(1, len(tail)-1)] + pick(r, []string{"x", "/p/{pg:\\d*}/ac", "z/{more}"})
 	p := root + tok + tail
 	w.Ops = []Op{
@@ -168,9 +168,33 @@ func genC17Split(r *Rng) *World {
 	return w
 }
 
+// genC17Memo: a registration rejected only for its method list must leave no trace in whatever the
+// router remembers about patterns: reject P (bad methods), register a name-variant Q, then P again
+// with valid methods must be rejected as identical up to names to the only other route.
+func genC17Memo(r *Rng) *World {
+	w := &World{}
+	w.Opts = RouterOpts{Name: "r", Interceptors: GenICs(r), Trace: r.Pct(30)}
+	w.Pool = genPoolCfg(r)
+	tok := pick(r, usable([]string{`{id}`, `{name}`, `{id:\d+}`, `{w:word}`}, w.Opts.Interceptors))
+	p := pick(r, []string{"/pages/", "/u/", "/"}) + tok + pick(r, []string{"", "/log", ".html", "/" + strings.Repeat("tail", pick(r, []int{1, 64, 100}))})
+	q := renamePattern(r, p, w.Opts.Interceptors)
+	if q == "" {
+		return genC17Split(r)
+	}
+	w.Ops = []Op{
+		{K: "badhandle", Pattern: p, HID: 5001, Methods: []string{"GET", pick(r, []string{"BOGUS", "HEAD", "GET"})}},
+		{K: "handle", Pattern: q, HID: 101, Methods: []string{"GET"}},
+		{K: "badhandle", Pattern: p, HID: 5002, Methods: []string{"POST"}},
+	}
+	return w
+}
+
 func genC17(r *Rng, idx int, tier string) *World {
 	if r.Pct(8) {
 		return genC17Split(r)
+	}
+	if r.Pct(5) {
+		return genC17Memo(r)
 	}
 	mix := defaultMix
 	mix.reqLo, mix.reqHi = 0, 1
@@ -234,10 +258,17 @@ func genC17(r *Rng, idx int, tier string) *World {
 			return append(append(append([]string{}, list[:i]...), x), list[i:]...)
 		}
 		freshList := func(pat string) []string {
-			// 0-2 valid methods that the pattern does not have yet
+			// 0-2 valid methods that the pattern does not have yet (sometimes up to 5: lists as long as Any's)
 			var l []string
 			have := strSetOfHandlers(m.Routes[pat])
-			for i := r.Intn(3); i > 0; i-- {
+			n := r.Intn(3)
+			if r.Pct(25) {
+				n = r.Range(4, 6)
+				if !have["GET"] {
+					l = append(l, "GET") // GET first, as in the library's own method table
+				}
+			}
+			for i := n; i > 0; i-- {
 				x := valid()
 				if !have[x] && !contains(l, x) {
 					l = append(l, x)
@@ -554,7 +585,16 @@ func genC08(r *Rng, idx int, tier string) *World {
 			if w.Opts.Trace {
 				reserved = append(reserved, "TRACE")
 			}
-			ops = append(ops, Op{K: "badhandle", Pattern: "/r/" + pick(r, litLeaf), HID: hid, Methods: []string{pick(r, reserved)}})
+			bad := []string{pick(r, reserved)}
+			if r.Pct(40) { // a list as long as Any's, GET first, one reserved or unknown entry
+				bad = []string{"GET", "POST", "PUT", "PATCH", "DELETE"}
+				bad = bad[:r.Range(3, 5)]
+				bad = append(bad, pick(r, reserved))
+				if r.Pct(30) {
+					bad = append(bad, "CONNECT")
+				}
+			}
+			ops = append(ops, Op{K: "badhandle", Pattern: "/r/" + pick(r, litLeaf), HID: hid, Methods: bad})
 		}
 	}
 	// methods may have been changed above: rebuild validity against a model and drop what became invalid
@@ -847,6 +887,8 @@ func init() {
 // ---- C02: documented resolution priority (add-only) --------------------------------------------------
 
 func genC02(r *Rng, idx int, tier string) *World {
+	poolExtras = true
+	defer func() { poolExtras = false }()
 	w := &World{}
 	w.Opts = RouterOpts{Name: "r", Interceptors: GenICs(r)}
 	w.Pool = genPoolCfg(r)
